@@ -2,7 +2,7 @@
 from ..engine import show
 from ..idioms import dispatch, entry_points, update_base, loaded_from, field_of, nf, walk
 from .cw3common import (SENDER, BLOCK, CS, IS_PASSED, IS_REJECTED, IS_EXPIRED, STATUS, VOTE, CONTRACTS, status, items,
-                        cs_call, exec_paths, is_expired_cond)
+                        cs_call, exec_paths, is_expired_cond, cs_is_passed, cs_not_passed, stored_status_in, cs_term)
 from . import C04
 
 ID = "C03"
@@ -110,25 +110,15 @@ def run(ctx):
                 if variant == "Execute" and pw:
                     i, e = pw[0]
                     base, _ = update_base(e.value)
-                    good = any(c[0][0] == "cmp" and c[0][1] == "eq" and c[1] is True and c[3] <= i and
-                               set((c[0][2], c[0][3])) == set((("call", CS, (base, BLOCK)), status("Passed"))) for c in p.conds)
+                    good = cs_is_passed(ctx, p, base, before=i)
                     ctx.ob("R03.3", key, good, sites=[e.site],
                            detail="Execute admits the proposal without the decision current_status(stored, env.block) == Passed",
                            sample={"guard": "current_status(stored, env.block) == Passed"})
                 if variant == "Close" and pw:
                     i, e = pw[0]
                     base, _ = update_base(e.value)
-                    g1 = g2 = False
-                    for c in p.conds:
-                        t = c[0]
-                        if c[3] > i:
-                            continue
-                        if t[0] == "call" and t[1].endswith("contains") and c[1] is False and t[2][1] == ("field", base, "status") \
-                                and t[2][0][0] == "list" and set(t[2][0][1]) >= {status("Executed"), status("Rejected"), status("Passed")}:
-                            g1 = True
-                        if t[0] == "cmp" and t[1] == "eq" and c[1] is False and \
-                                set((t[2], t[3])) == set((("call", CS, (base, BLOCK)), status("Passed"))):
-                            g2 = True
+                    g1 = stored_status_in(ctx, p, base, ("Pending", "Open"), before=i)
+                    g2 = cs_not_passed(ctx, p, base, before=i)
                     g3 = is_expired_cond(p, ("field", base, "expires"), True, before=i)
                     ctx.ob("R03.3", key, g1 and g2 and g3, sites=[e.site],
                            detail="Close admits a proposal without all three decisions (stored status not Executed/Rejected/Passed: %s, "
